@@ -254,6 +254,35 @@ def _init(base, tests):
         import atexit
 
         atexit.register(shutil.rmtree, _scratch, True)
+        _clean_failures()
+
+
+_deselect = None
+
+
+def _clean_failures():
+    """The pinned environment makes 28 tests fail on the clean tree (NumPy 2.5 deprecations); they are
+    deselected so that `-x` stops at the first failure a *mutant* causes among the 652 stable-pass tests."""
+    global _deselect
+    env = dict(os.environ, PYTHONPATH=_scratch, PYTHONDONTWRITEBYTECODE="1")
+    r = subprocess.run(
+        ["/venv/bin/python", "-m", "pytest", "-q", "-rfE", "--color=no", "-p", "no:cacheprovider", "--no-header", "--timeout=900", "unyt"],
+        cwd=_scratch, env=env, capture_output=True, text=True, timeout=1800,
+    )
+    ids = []
+    for l in r.stdout.splitlines():
+        if l.startswith(("FAILED ", "ERROR ")):
+            i = l.split(" ", 1)[1].split(" - ", 1)[0].strip()
+            if " " in i:  # pytest does not match --deselect ids that contain blanks: fall back to the prefix
+                i = i.split("[")[0]
+            ids.append(i)
+    _deselect = [a for i in ids for a in ("--deselect", i)]
+    chk = subprocess.run(
+        ["/venv/bin/python", "-m", "pytest", "-x", "-q", "--color=no", "-p", "no:cacheprovider", "--no-header", "--timeout=900", *_deselect, "unyt"],
+        cwd=_scratch, env=env, capture_output=True, text=True, timeout=1800,
+    )
+    if chk.returncode != 0:
+        raise RuntimeError("clean tree does not pass with the environment failures deselected: " + chk.stdout[-400:])
 
 
 def _job(m):
@@ -293,7 +322,7 @@ def _job(m):
                 open(p, "w").write(src)
                 env = dict(os.environ, PYTHONPATH=_scratch, PYTHONDONTWRITEBYTECODE="1")
                 r = subprocess.run(
-                    ["/venv/bin/python", "-m", "pytest", "-x", "-q", "-p", "no:cacheprovider", "--no-header", "--timeout=120", "unyt"],
+                    ["/venv/bin/python", "-m", "pytest", "-x", "-q", "--color=no", "-p", "no:cacheprovider", "--no-header", "--timeout=120", *_deselect, "unyt"],
                     cwd=_scratch, env=env, capture_output=True, text=True, timeout=900,
                 )
                 out["tests"] = "pass" if r.returncode == 0 else "fail"
